@@ -8,7 +8,13 @@ from typing import Dict, List, Optional, Tuple
 from ..model import AnalysisError, FuncInfo, Program, dotted, own_nodes, unparse
 from ..symex import resolve as _resolve
 from ..symex import atoms_of, facts_for, phi_alternatives, resolve, always_leaves
-from .common import unitem, U, const_value, is_self_attr, kwarg, np_call, returns_of, short
+from .common import unitem, const_value, is_self_attr, kwarg, np_call, returns_of, short
+from .common import U as _U
+
+
+def U(e) -> str:
+    """text of an expression with numpy's two spellings of the absolute value unified (np.absolute is np.abs)"""
+    return _U(e).replace("np.absolute(", "np.abs(").replace("numpy.absolute(", "np.abs(")
 
 SC = "pygradflow.scale.Scaling"
 
@@ -606,7 +612,22 @@ def scale_symmetric_rule(prog: Program, rep) -> None:
                 k = U(tg.slice)
                 first = st.value.args[0]
 
+                # loop variables that stand for rows[k] / cols[k]: `for k, (r, c) in enumerate(zip(rows, cols))`, `for r, c in zip(..)`
+                zipped: Dict[str, str] = {}
+                lp_in = q.loops[-1] if q.loops else None
+                if isinstance(lp_in, ast.For):
+                    it_, tg_ = lp_in.iter, lp_in.target
+                    if isinstance(it_, ast.Call) and dotted(it_.func) == "enumerate" and len(it_.args) == 1 and isinstance(tg_, ast.Tuple) and len(tg_.elts) == 2 \
+                            and U(tg_.elts[0]) == k:
+                        it_, tg_ = it_.args[0], tg_.elts[1]
+                        if isinstance(it_, ast.Call) and dotted(it_.func) == "zip" and isinstance(tg_, ast.Tuple) and len(tg_.elts) == len(it_.args):
+                            for t_, s_ in zip(tg_.elts, it_.args):
+                                if isinstance(t_, ast.Name) and isinstance(s_, ast.Name):
+                                    zipped[t_.id] = s_.id
+
                 def role(ix):
+                    if isinstance(ix, ast.Name) and ix.id in zipped:
+                        return "row" if same(zipped[ix.id], rows) else ("col" if same(zipped[ix.id], cols) else None)
                     while isinstance(ix, ast.Name) and not (same(ix.id, rows) or same(ix.id, cols)):
                         defs = [d for d in inloop if isinstance(d.stmt, ast.Assign) and len(d.stmt.targets) == 1 and U(d.stmt.targets[0]) == ix.id and d.index < q.index]
                         if len(defs) != 1:
